@@ -312,7 +312,7 @@ func runCheck(e *env, p *propSpec, tier string) int {
 		if clause, site, detail, ok := stallKind(o); ok && p.owns(clause) {
 			v := rt.Violation{Clause: clause, Site: site, Detail: detail}
 			if knownLine(known, p.ID, v) != "" {
-				fmt.Printf("KNOWN-FINDING: property=%s %s\n", p.ID, knownLine(known, p.ID, v))
+				printKnown(p.ID, knownLine(known, p.ID, v))
 				continue
 			}
 			path := writeReplay(p, sp.Seed, rt.Result{Params: sp}, v, "not minimised (the run does not complete)")
@@ -326,7 +326,7 @@ func runCheck(e *env, p *propSpec, tier string) int {
 			clause := "C14.crash"
 			v := rt.Violation{Clause: clause, Site: "process", Detail: "the process running the server code died: " + trimLines(firstFatal(o.log), 12)}
 			if knownLine(known, p.ID, v) != "" {
-				fmt.Printf("KNOWN-FINDING: property=%s %s\n", p.ID, knownLine(known, p.ID, v))
+				printKnown(p.ID, knownLine(known, p.ID, v))
 				continue
 			}
 			path := writeReplay(p, sp.Seed, rt.Result{Params: sp}, v, "not minimised (process crash)")
@@ -349,7 +349,7 @@ func runCheck(e *env, p *propSpec, tier string) int {
 	for _, k := range keys {
 		f := a.owned[k]
 		if line := knownLine(known, p.ID, f.v); line != "" {
-			fmt.Printf("KNOWN-FINDING: property=%s %s\n", p.ID, line)
+			printKnown(p.ID, line)
 			continue
 		}
 		nViol++
@@ -949,4 +949,16 @@ func stallKind(o batchOutcome) (clause, site, detail string, ok bool) {
 		}
 	}
 	return
+}
+
+var knownPrinted = map[string]bool{}
+
+// printKnown prints one KNOWN-FINDING line per listed finding (several sites
+// may match one listed pattern).
+func printKnown(prop, line string) {
+	if knownPrinted[line] {
+		return
+	}
+	knownPrinted[line] = true
+	fmt.Printf("KNOWN-FINDING: property=%s %s\n", prop, line)
 }
